@@ -162,6 +162,8 @@ type dnsOp struct {
 	name    string
 	fail    bool
 	variant int // 0 / 1: the plain answer; 2..9: variant
+	dial    bool // DNSCache.DialContext(name:443): lookup, every connection refused (no allowed network), and - after a cache
+	// hit - delete and look up once more
 }
 
 func parseDNSOps(s string) ([][]dnsOp, bool) {
@@ -173,6 +175,8 @@ func parseDNSOps(s string) ([][]dnsOp, bool) {
 				switch {
 				case len(o) == 2 && o[0] == '-':
 					ops = append(ops, dnsOp{del: true, name: o[1:]})
+				case len(o) == 2 && o[0] == '~':
+					ops = append(ops, dnsOp{dial: true, name: o[1:]})
 				case len(o) == 2 && o[1] == '!':
 					ops = append(ops, dnsOp{name: o[:1], fail: true})
 				case len(o) == 2 && o[1] >= '2' && o[1] <= '9':
@@ -226,6 +230,14 @@ func runDNSSchedule(size int, regime, opsS, sched string) string {
 				if op.del {
 					cache.VerifDelete(op.name)
 					res.events <- dnsEvent{g: g, kind: 'D', name: op.name}
+					continue
+				}
+				if op.dial {
+					conn, err := cache.DialContext(ctx, "tcp", op.name+":443")
+					if err == nil && conn != nil {
+						_ = conn.Close()
+					}
+					res.events <- dnsEvent{g: g, kind: 'X', name: op.name, hit: err == nil}
 					continue
 				}
 				addrs, _, cached, found := cache.VerifLookup(ctx, op.name)
@@ -320,6 +332,11 @@ func runDNSSchedule(size int, regime, opsS, sched string) string {
 			obs = fmt.Sprintf("D%d:%s", g, ev.name)
 		case 'F':
 			obs = fmt.Sprintf("F%d:%s", g, ev.name)
+		case 'X':
+			obs = fmt.Sprintf("X%d:%s", g, ev.name)
+			if ev.hit {
+				obs = fmt.Sprintf("C%d:%s", g, ev.name) // connected (never with no allowed network)
+			}
 		case 'R':
 			hm := "m"
 			if ev.hit {
@@ -454,8 +471,8 @@ func genConc(o *Out, tier string, r *Rng) {
 }
 
 func genConcDNS(o *Out, tier string, r *Rng) {
-	atoms2 := []string{"a", "b", "a!", "-a", "a2"}
-	atoms3 := []string{"a", "b", "c", "b!", "-b", "b3", "a2"}
+	atoms2 := []string{"a", "b", "a!", "-a", "a2", "~a"}
+	atoms3 := []string{"a", "b", "c", "b!", "-b", "b3", "a2", "~a", "~b"}
 	lists2 := dnsOpLists(atoms2, 2)
 	lists3 := dnsOpLists(atoms3, 3)
 	regimes := []string{"h", "n"}
@@ -472,7 +489,7 @@ func genConcDNS(o *Out, tier string, r *Rng) {
 			}
 		}
 		// 3 goroutines x one op each x cap 1,2 x both regimes x ALL schedules
-		one := []string{"a", "b", "a!", "-a", "c", "a2"}
+		one := []string{"a", "b", "a!", "-a", "c", "a2", "~a"}
 		for _, x := range one {
 			for _, y := range one {
 				for _, z := range one {
